@@ -18,8 +18,43 @@ Python subset and its meaning (all integers are unbounded Z):
   raise           -> Raise
   while           -> Fixpoint on explicit fuel; exhaustion -> Fuel (never a normal value)
   for v in <list> -> structural Fixpoint on the list
+  range(a, b, s)  -> py_range a b s; a range over constants with at most 64 elements is emitted as the literal list
 Functions that contain none of the partial constructs are emitted as total
 functions of plain type; the others return `res T` (Ok | Raise | Fuel).
+
+Extensions for the T-marshal layer (segment header / time helpers); each is opt-in per Fn and fails closed:
+  for _ in <list>  the anonymous loop variable `_` is an ordinary variable; it is emitted as `ign_`
+                   (a bare `_` would be a Coq hole).
+  Fn(sinks={'write_uint_le': [(1, 'i', Z, None), (2, 'size', Z, 4)]})
+                   *sink procedures*: a call statement `write_uint_le(buf, v, size=n)` has no value; its only effect
+                   is on the buffer object, which is not modelled.  The translation records the listed arguments
+                   (position, keyword name, type, default or None = required), in program order, in an output trace
+                   `out_ : list (T1 * ... * Tn)`, initially [], and the trace is the function's result (the Python
+                   function must return None: declared ret = UNIT).  What the sink does with a record (here: size
+                   little-endian bytes of v) is a hand model, stated next to the theorem that uses it.  Sink calls
+                   inside loops are rejected; all sinks of one Fn must record the same tuple type; the first
+                   (buffer) argument is dropped without being translated.
+  Fn(sources={'read_uint_le': Z})
+                   *source functions*: the value returned by the k-th call site (source order) of a declared source
+                   is an extra parameter `in_k` of the generated function (after the declared parameters and the
+                   self_in attributes).  This models "whatever the reader returned"; it is only sound when a call
+                   site runs at most once, so source calls inside loops / comprehensions are rejected, and their
+                   arguments must be plain names, attributes or constants (no effects); the arguments themselves
+                   are not translated (how many bytes are consumed is part of the hand model).
+  Fn(ctors={'SegmentHeader': [Z, Z, B]})
+                   *record constructors*: `C(a, b, c)` with positional arguments only is the tuple (a, b, c) with the
+                   declared component types (the constructor must only store its arguments: hand-checked, and
+                   covered by the translation validation of the callers).
+  Fn(ctors={'UUID': {'keywords': [('fields', tup(Z, Z, Z, Z, Z, Z)), ('version', Z)]}})
+                   keyword form: `m.UUID(fields=(...), version=1)` (exactly these keywords, no positional arguments)
+                   is the tuple of the keyword values in the declared order.  What the constructor computes from
+                   them (uuid.UUID: field range checks, version/variant bits) is a hand model.
+  Fn(tail_from='time_low', tail_inputs=[('intervals', Z)])
+                   *tail translation*: only the suffix of the function body starting at the first top-level
+                   statement that assigns the name `tail_from` is translated; the listed local variables are extra
+                   parameters (after the declared ones) holding their values at that program point.  The result
+                   describes what the code computes from there on; the skipped prefix (e.g. float arithmetic) is
+                   outside the subset and stays untranslated.  Rejected if the prefix assigns a typed parameter.
 """
 import ast, os, textwrap
 
@@ -258,8 +293,15 @@ class Fn(object):
     """
 
     def __init__(self, path, qual, name, params, ret, fuels=(), self_in=None, state_out=None,
-                 externs=None, ignore_calls=(), assume=None):
+                 externs=None, ignore_calls=(), assume=None, sinks=None, sources=None, ctors=None,
+                 tail_from=None, tail_inputs=()):
         self.path, self.qual, self.name, self.params, self.ret = path, qual, name, params, ret
+        # sinks / sources / ctors: see the module docstring ("Extensions for the T-marshal layer")
+        self.sinks = dict(sinks or {})
+        self.sources = dict(sources or {})
+        self.ctors = dict(ctors or {})
+        self.tail_from = tail_from
+        self.tail_inputs = list(tail_inputs)
         self.fuels = list(fuels)
         self.self_in = self_in or {}
         self.state_out = state_out or []
@@ -447,6 +489,37 @@ class FnTranslator(object):
                 for t in n.targets:
                     if isinstance(t, ast.Name):
                         self.bytearrays.add(t.id)
+        # source call sites (Fn.sources): k-th site in source order -> parameter in_k
+        self.source_sites = {}
+        if fn.sources:
+            sites = [n for n in ast.walk(self.node) if isinstance(n, ast.Call) and isinstance(n.func, ast.Name)
+                     and n.func.id in fn.sources]
+            sites.sort(key=lambda n: (n.lineno, n.col_offset))
+            for lp in ast.walk(self.node):
+                if isinstance(lp, (ast.For, ast.While, ast.ListComp, ast.GeneratorExp, ast.SetComp, ast.DictComp,
+                                   ast.Lambda)):
+                    for n in ast.walk(lp):
+                        if any(n is s_ for s_ in sites):
+                            raise Unsupported('%s: source call %s inside a loop/comprehension/lambda'
+                                              % (fn.name, n.func.id))
+            for i, n in enumerate(sites, 1):
+                for a in list(n.args) + [k_.value for k_ in n.keywords]:
+                    ok_arg = isinstance(a, (ast.Name, ast.Constant)) or (
+                        isinstance(a, ast.Attribute) and isinstance(a.value, ast.Name))
+                    if not ok_arg:
+                        raise Unsupported('%s: argument of source call %s is not a plain name/attribute/constant'
+                                          % (fn.name, n.func.id))
+                self.source_sites[id(n)] = (i, fn.sources[n.func.id])
+        # sinks (Fn.sinks): one output trace, all sinks record the same tuple type
+        self.trace_type = None
+        if fn.sinks:
+            rts = set(tuple(t for (_p, _k, t, _d) in spec) for spec in fn.sinks.values())
+            if len(rts) != 1 or not list(rts)[0]:
+                raise Unsupported('%s: sinks must record one common non-empty tuple type' % fn.name)
+            comps = list(rts)[0]
+            self.trace_type = lst(comps[0] if len(comps) == 1 else tup(*comps))
+            if fn.ret != UNIT or fn.state_out:
+                raise Unsupported('%s: a function with sinks must return None (ret=UNIT) and have no state_out' % fn.name)
 
     # -- helpers
     def fresh(self, base='t'):
@@ -454,12 +527,18 @@ class FnTranslator(object):
         return '%s_%d' % (base, self.tmp_no)
 
     def cname(self, pyname):
+        if pyname == '_':
+            return 'ign_'
+        if pyname.startswith('in_') and pyname[3:].isdigit():
+            return pyname + '_'
         return pyname if pyname not in COQ_RESERVED else pyname + '_'
 
     def ok(self, e):
         return '(Ok %s)' % e if self.partial else e
 
     def ret_type(self):
+        if self.trace_type is not None:
+            return self.trace_type
         t = self.fn.ret
         if self.fn.state_out:
             t = tup(t, *[ty for (_, ty) in self.fn.state_out])
@@ -492,7 +571,33 @@ class FnTranslator(object):
         for (attr, t) in self.fn.state_out:
             if 'self.' + attr not in env:
                 raise Unsupported('state_out %s must also be in self_in' % attr)
-        body = self.block(self.node.body, env, None)
+        for (i, t) in sorted(self.source_sites.values()):
+            params.append('(in_%d : %s)' % (i, coq_type(t)))
+        stmts = list(self.node.body)
+        if self.fn.tail_from is not None:
+            idx = None
+            for i, st in enumerate(stmts):
+                if isinstance(st, ast.Assign) and any(isinstance(t, ast.Name) and t.id == self.fn.tail_from
+                                                      for t in st.targets):
+                    idx = i
+                    break
+            if idx is None:
+                raise Unsupported('%s: no top-level assignment to %s (tail_from)' % (self.fn.name, self.fn.tail_from))
+            for st in stmts[:idx]:
+                for n in ast.walk(st):
+                    if isinstance(n, ast.Name) and isinstance(n.ctx, ast.Store) and n.id in env:
+                        raise Unsupported('%s: the untranslated prefix assigns parameter %s' % (self.fn.name, n.id))
+            stmts = stmts[idx:]
+            for (n, t) in self.fn.tail_inputs:
+                if n in env:
+                    raise Unsupported('%s: tail input %s is also a parameter' % (self.fn.name, n))
+                env[n] = t
+                params.append('(%s : %s)' % (self.cname(n), coq_type(t)))
+        elif self.fn.tail_inputs:
+            raise Unsupported('%s: tail_inputs without tail_from' % self.fn.name)
+        body = self.block(stmts, env, None)
+        if self.trace_type is not None:
+            body = 'let out_ := [] in\n' + body
         rt = coq_type(self.ret_type())
         if self.partial:
             rt = '(res %s)' % rt
@@ -505,6 +610,8 @@ class FnTranslator(object):
 
     # -- final value of a fall-through
     def result(self, value_expr, env):
+        if self.trace_type is not None:
+            return self.ok('out_')
         if self.fn.state_out:
             parts = [value_expr] + [self.var('self.' + a) for (a, _) in self.fn.state_out]
             return self.ok('(' + ', '.join(parts) + ')')
@@ -620,11 +727,47 @@ class FnTranslator(object):
                     return self.expr_k(call.args[0], t, env, lambda e, _t:
                                        'let %s := %s ++ %s in\n%s' % (self.var(v), self.var(v), e,
                                                                       self.block(rest, env, k)))
+        if isinstance(f, ast.Name) and f.id in self.fn.sinks and f.id not in env:
+            return self.sink_call(call, self.fn.sinks[f.id], env, rest, k)
         nm = self.tr._call_name(call)
         if nm in self.fn.ignore_calls:
             return self.block(rest, env, k)
         # call for effect on self.<state> of a translated method is not supported
         raise Unsupported('%s: call statement %s' % (self.fn.name, ast.dump(call)[:80]))
+
+    def sink_call(self, call, spec, env, rest, k):
+        """Record the declared arguments of a sink procedure call in the output trace (module docstring)."""
+        if k is not None:
+            raise Unsupported('%s: sink call inside a loop' % self.fn.name)
+        if any(kw.arg is None for kw in call.keywords):
+            raise Unsupported('%s: **kwargs in sink call' % self.fn.name)
+        pos = list(call.args)
+        kws = {kw.arg: kw.value for kw in call.keywords}
+        allowed = set([0] + [p_ for (p_, _k, _t, _d) in spec])
+        if any(i not in allowed for i in range(len(pos))) or not pos:
+            raise Unsupported('%s: sink call with undeclared positional arguments' % self.fn.name)
+        items = []
+        for (p_, kwname, t, default) in spec:
+            if p_ < len(pos):
+                if kwname in kws:
+                    raise Unsupported('%s: sink argument %s given twice' % (self.fn.name, kwname))
+                items.append((pos[p_], t))
+            elif kwname in kws:
+                items.append((kws.pop(kwname), t))
+            elif default is not None:
+                items.append((ast.Constant(default), t))
+            else:
+                raise Unsupported('%s: sink argument %s missing' % (self.fn.name, kwname))
+        if kws:
+            raise Unsupported('%s: sink call with undeclared keyword arguments %r' % (self.fn.name, sorted(kws)))
+
+        def go(i, acc):
+            if i == len(items):
+                rec = acc[0] if len(acc) == 1 else '(' + ', '.join(acc) + ')'
+                return 'let out_ := out_ ++ [%s] in\n%s' % (rec, self.block(rest, env, k))
+            node, t = items[i]
+            return self.expr_k(node, t, env, lambda e, _t: go(i + 1, acc + [e]))
+        return go(0, [])
 
     def try_stmt(self, s, env, rest, k):
         # idiom: try: x = next(<genexp>)  except StopIteration: <assignments>
@@ -681,6 +824,8 @@ class FnTranslator(object):
                     if isinstance(f, ast.Attribute) and isinstance(f.value, ast.Name) \
                             and f.attr in ('append', 'reverse', 'extend'):
                         add(f.value.id)
+                    if isinstance(f, ast.Name) and f.id in self.fn.sinks:
+                        raise Unsupported('%s: sink call inside a loop' % self.fn.name)
                 elif isinstance(n, (ast.Return, ast.Break, ast.Continue)):
                     raise Unsupported('%s: return/break/continue inside a loop' % self.fn.name)
         return out
@@ -887,6 +1032,10 @@ class FnTranslator(object):
         if not isinstance(node, ast.Tuple) and not self.mentions_local(node, env):
             # self.X / cls.X constants must dispatch from the receiver class
             v, ok = self.const_try_recv(node)
+            if ok and isinstance(v, range):
+                # range() over constants: a literal list when short, otherwise the generic py_range translation
+                ok = len(v) <= 64
+                v = list(v)
             if ok:
                 return const_to_coq(v, expected)
         if isinstance(node, ast.Tuple):
@@ -1188,6 +1337,36 @@ class FnTranslator(object):
                 if t != Z:
                     raise Unsupported('bit_length of %r' % (t,))
                 return '(py_bit_length %s)' % e, Z
+        # source call sites: the value read is a parameter of the generated function
+        if id(node) in self.source_sites:
+            idx, t = self.source_sites[id(node)]
+            return 'in_%d' % idx, t
+        # record constructors: a tuple of the (positional) arguments
+        if nm in self.fn.ctors and isinstance(self.fn.ctors[nm], dict) and (
+                (isinstance(f, ast.Name) and f.id not in env) or
+                (isinstance(f, ast.Attribute) and isinstance(f.value, ast.Name) and f.value.id not in env)):
+            kwspec = self.fn.ctors[nm].get('keywords') or []
+            if node.args or sorted(k.arg for k in node.keywords) != sorted(n for (n, _t) in kwspec) or not kwspec:
+                raise Unsupported('%s: constructor %s call shape (keywords)' % (self.fn.name, nm))
+            kws = {k.arg: k.value for k in node.keywords}
+            parts, types = [], []
+            for (kn, kt) in kwspec:
+                e, t = self.expr(kws[kn], kt, env, hoisted)
+                e, t = self.coerce(e, t, kt)
+                parts.append(e)
+                types.append(kt)
+            return '(' + ', '.join(parts) + ')', tup(*types)
+        if isinstance(f, ast.Name) and f.id in self.fn.ctors and f.id not in env \
+                and not isinstance(self.fn.ctors[f.id], dict):
+            types = self.fn.ctors[f.id]
+            if node.keywords or len(node.args) != len(types):
+                raise Unsupported('%s: constructor %s call shape' % (self.fn.name, f.id))
+            parts = []
+            for a, at in zip(node.args, types):
+                e, t = self.expr(a, at, env, hoisted)
+                e, t = self.coerce(e, t, at)
+                parts.append(e)
+            return '(' + ', '.join(parts) + ')', tup(*types)
         # externs (hand-modelled callees)
         if nm in self.fn.externs:
             cn, atypes, rt, part = self.fn.externs[nm]
@@ -1250,7 +1429,8 @@ COQ_RESERVED = {'at', 'end', 'in', 'fun', 'match', 'with', 'let', 'if', 'then', 
                 'exists', 'fix', 'cofix', 'Type', 'Set', 'Prop', 'as', 'for', 'where', 'using', 'mod', 'val',
                 'length', 'rev', 'map', 'find', 'bind', 'res', 'Ok', 'Raise', 'Fuel', 'nth', 'app', 'fuel_',
                 'xs_', 'found_', 'tt', 'unit', 'bool', 'true', 'false', 'nat', 'list', 'option', 'Some', 'None',
-                'S', 'O', 'Z', 'N', 'fst', 'snd', 'negb', 'andb', 'orb', 'bytes', 'last', 'max', 'min', 'pos'}
+                'S', 'O', 'Z', 'N', 'fst', 'snd', 'negb', 'andb', 'orb', 'bytes', 'last', 'max', 'min', 'pos',
+                'out_', 'ign_'}
 
 
 def emit_consts(repo, items, header=''):
